@@ -135,13 +135,31 @@ def frac_attr(rng, v):
 def gen_def(rng, kind):
     tt, tm = gen_ts(rng)
     d = dict(kind=kind, ts_text=tt, ts=tm, href=rng.below(3) == 0)
+    if kind in ('lg', 'rg'):
+        # every attribute with a non-default value; href templates of either kind (1-3 levels) carrying the inheritable
+        # attributes gradientUnits / spreadMethod / stops (gradientTransform stays on the element: usvg does not inherit it)
+        d['gunits'] = 'user' if rng.below(4) == 0 else 'obb'
+        d['spread'] = rng.choice(['pad', 'reflect', 'repeat'])
+        levels = rng.below(4)
+        d['chain'] = [rng.choice(['lg', 'rg']) for _ in range(levels)]
+        lv = list(range(1, levels + 1))
+        d['units_at'] = rng.choice((['self'] if d['gunits'] == 'user' else ['none', 'self']) + lv)
+        d['spread_at'] = 'none' if d['spread'] == 'pad' else rng.choice(['self'] + lv)
+        d['href'] = levels > 0
     if kind == 'lg':
-        d['c'] = [rng.choice(FR) for _ in range(4)]
-        if d['c'][0] == d['c'][2] and d['c'][1] == d['c'][3]:
-            d['c'][2] = d['c'][0] + Fraction(1, 2)
+        if d['gunits'] == 'user':
+            d['c'] = [Fraction(20), Fraction(10), Fraction(180), Fraction(120)]
+        else:
+            d['c'] = [rng.choice(FR) for _ in range(4)]
+            if d['c'][0] == d['c'][2] and d['c'][1] == d['c'][3]:
+                d['c'][2] = d['c'][0] + Fraction(1, 2)
     elif kind == 'rg':
-        d['c'] = [rng.choice([Fraction(1, 2), Fraction(1, 4), Fraction(3, 4)]), rng.choice([Fraction(1, 2), Fraction(1, 4)]),
-                  rng.choice([Fraction(1, 2), Fraction(1, 4), Fraction(3, 4), Fraction(1)])]       # cx cy r
+        if d['gunits'] == 'user':
+            d['c'] = [Fraction(100), Fraction(80), Fraction(70), Fraction(rng.choice([100, 80, 120])), Fraction(rng.choice([80, 70]))]
+        else:
+            cx, cy = rng.choice([Fraction(1, 2), Fraction(1, 4), Fraction(3, 4)]), rng.choice([Fraction(1, 2), Fraction(1, 4)])
+            d['c'] = [cx, cy, rng.choice([Fraction(1, 2), Fraction(1, 4), Fraction(3, 4), Fraction(1)]),
+                      rng.choice([cx, cx - Fraction(1, 8), cx + Fraction(1, 8)]), rng.choice([cy, cy + Fraction(1, 8)])]   # cx cy r fx fy
     elif kind == 'pattern':
         d['rect'] = [rng.choice([Fraction(0), Fraction(1, 8), Fraction(-1, 8)]), rng.choice([Fraction(0), Fraction(1, 4)]),
                      rng.choice([Fraction(1, 4), Fraction(1, 2), Fraction(3, 8)]), rng.choice([Fraction(1, 4), Fraction(1, 2)])]
@@ -167,7 +185,7 @@ def gen_def(rng, kind):
         d['pu'] = 'obb' if d['units'] == 'user' else rng.choice(['user', 'obb'])
         d['rect'] = rng.choice([None, [Fraction(-1, 4), Fraction(-1, 4), Fraction(3, 2), Fraction(3, 2)],
                                 [Fraction(0), Fraction(0), Fraction(1), Fraction(1)]])
-        d['prim'] = rng.choice(['blur', 'offset', 'flood', 'offset-sub'])
+        d['prim'] = rng.choice(['blur', 'blur1', 'offset', 'flood', 'offset-sub', 'shadow', 'shadow1', 'morph', 'morph1', 'displace'])
         d['p'] = [rng.choice([Fraction(1, 16), Fraction(1, 8), Fraction(1, 32)]), rng.choice([Fraction(1, 16), Fraction(1, 8)])]
         d['sub'] = [Fraction(1, 8), Fraction(1, 4), Fraction(1, 2), Fraction(1, 2)]
     return d
@@ -182,17 +200,30 @@ def def_markup_A(rng, d):
     k = d['kind']
     t = d['ts_text']
     if k in ('lg', 'rg'):
-        tag = 'linearGradient' if k == 'lg' else 'radialGradient'
-        if k == 'lg':
-            coords = ' x1="%s" y1="%s" x2="%s" y2="%s"' % tuple(frac_attr(rng, v) for v in d['c'])
-        else:
-            coords = ' cx="%s" cy="%s" r="%s"' % tuple(frac_attr(rng, v) for v in d['c'])
-        if d['href']:
-            # stops, units and the transform come from a referenced gradient of the other type
-            other = 'radialGradient' if k == 'lg' else 'linearGradient'
-            return ('<%s id="base" gradientUnits="objectBoundingBox" spreadMethod="reflect">%s</%s><%s id="d" xlink:href="#base"%s%s/>'
-                    % (other, STOPS, other, tag, coords, ts_attr('gradientTransform', t)))
-        return '<%s id="d"%s%s>%s</%s>' % (tag, coords, ts_attr('gradientTransform', t), STOPS, tag)
+        TAG = {'lg': 'linearGradient', 'rg': 'radialGradient'}
+        tag = TAG[k]
+        names = ('x1', 'y1', 'x2', 'y2') if k == 'lg' else ('cx', 'cy', 'r', 'fx', 'fy')
+        wr = (lambda v: fs(v)) if d['gunits'] == 'user' else (lambda v: frac_attr(rng, v))
+        coords = ''.join(' %s="%s"' % (n, wr(v)) for n, v in zip(names, d['c']))
+        units_text = 'userSpaceOnUse' if d['gunits'] == 'user' else 'objectBoundingBox'
+
+        def own(level):
+            a = ''
+            if d['units_at'] == level:
+                a += ' gradientUnits="%s"' % units_text
+            if d['spread_at'] == level:
+                a += ' spreadMethod="%s"' % d['spread']
+            return a
+        n = len(d['chain'])
+        out = ''
+        for lvl in range(n, 0, -1):
+            kk = d['chain'][lvl - 1]
+            inner = STOPS if lvl == n else ''
+            href = ' xlink:href="#t%d"' % (lvl + 1) if lvl < n else ''
+            out += '<%s id="t%d"%s%s>%s</%s>' % (TAG[kk], lvl, href, own(lvl), inner, TAG[kk])
+        href = ' xlink:href="#t1"' if n else ''
+        out += '<%s id="d"%s%s%s%s>%s</%s>' % (tag, href, coords, own('self'), ts_attr('gradientTransform', t), '' if n else STOPS, tag)
+        return out
     if k == 'pattern':
         r = d['rect']
         if d.get('units') == 'user':
@@ -276,6 +307,25 @@ def filter_prims(d, B):
         sx, sy = p0 * B[2], p1 * B[3]
         suba = ' x="%s" y="%s" width="%s" height="%s"' % (fs(sub[0] * B[2] + B[0]), fs(sub[1] * B[3] + B[1]), fs(sub[2] * B[2]), fs(sub[3] * B[3]))
     k = d['prim']
+    # one-number forms stand for both axes: under objectBoundingBox primitive units the two axes scale differently
+    if B is None or not pu_obb:
+        s1x = s1y = None
+    else:
+        s1x, s1y = p0 * B[2], p0 * B[3]
+    one = (lambda: fs(sx)) if s1x is None else (lambda: '%s %s' % (fs(s1x), fs(s1y)))
+    if k == 'blur1':
+        return '<feGaussianBlur stdDeviation="%s"/>' % one()
+    if k == 'shadow':
+        return '<feDropShadow dx="%s" dy="%s" stdDeviation="%s %s" flood-color="#203040"/>' % (fs(sx), fs(sy), fs(sx), fs(sy))
+    if k == 'shadow1':
+        return '<feDropShadow dx="%s" dy="%s" stdDeviation="%s" flood-color="#203040"/>' % (fs(sx), fs(sy), one())
+    if k == 'morph':
+        return '<feMorphology operator="dilate" radius="%s %s"/>' % (fs(sx), fs(sy))
+    if k == 'morph1':
+        return '<feMorphology operator="dilate" radius="%s"/>' % one()
+    if k == 'displace':
+        sc = sx if (B is None or not pu_obb) else p0 * (B[2] + B[3]) / 2
+        return '<feDisplacementMap in="SourceGraphic" in2="SourceGraphic" scale="%s" xChannelSelector="B" yChannelSelector="A"/>' % fs(sc)
     if k == 'blur':
         return '<feGaussianBlur stdDeviation="%s %s"/>' % (fs(sx), fs(sy))
     if k == 'offset':
@@ -296,9 +346,13 @@ def def_markup_B(d, i, B):
     bm = bbox_matrix_text(B)
     if k in ('lg', 'rg'):
         tag = 'linearGradient' if k == 'lg' else 'radialGradient'
-        coords = (' x1="%s" y1="%s" x2="%s" y2="%s"' if k == 'lg' else ' cx="%s" cy="%s" r="%s"') % tuple(fs(v) for v in d['c'])
-        sm = ' spreadMethod="reflect"' if d['href'] else ''
-        return '<%s id="d%d" gradientUnits="userSpaceOnUse"%s%s gradientTransform="%s %s">%s</%s>' % (tag, i, coords, sm, bm, t, STOPS, tag)
+        names = ('x1', 'y1', 'x2', 'y2') if k == 'lg' else ('cx', 'cy', 'r', 'fx', 'fy')
+        coords = ''.join(' %s="%s"' % (n, fs(v)) for n, v in zip(names, d['c']))
+        sm = ' spreadMethod="%s"' % d['spread']
+        # effective units by the SVG href rules (taken from the source document, not from the parsed tree):
+        # userSpaceOnUse -> the definition is independent of the box; objectBoundingBox -> mapped through B
+        gt = ('%s' % t) if d['gunits'] == 'user' else ('%s %s' % (bm, t))
+        return '<%s id="d%d" gradientUnits="userSpaceOnUse"%s%s%s>%s</%s>' % (tag, i, coords, sm, ts_attr('gradientTransform', gt.strip()), STOPS, tag)
     if k == 'pattern':
         r = mapped(d['rect'], B) if d.get('units') != 'user' else d['rect']
         a = ' patternUnits="userSpaceOnUse" x="%s" y="%s" width="%s" height="%s"' % tuple(fs(v) for v in r) + ts_attr('patternTransform', t)
@@ -366,6 +420,8 @@ def ref_markup(d, u, target):
 
 def box_free(d):
     """a definition in which nothing is objectBoundingBox: the element's box plays no role (also when it is empty)"""
+    if d['kind'] in ('lg', 'rg'):
+        return d.get('gunits') == 'user'
     return d['kind'] == 'pattern' and d.get('units') == 'user' and d['cu'] == 'user'
 
 
@@ -499,7 +555,10 @@ def def_numbers(kind, o):
             return ['color'] + o['rgb']
         d = o['def']
         base = [d[k] for k in (('x1', 'y1', 'x2', 'y2') if 'x1' in d else ('cx', 'cy', 'r', 'fx', 'fy'))]
-        return base + d['ts'] + [s['offset'] for s in d['stops']]
+        stops = []
+        for st in d['stops']:
+            stops += [st['offset'], st['opacity']] + list(st['rgb'])
+        return base + d['ts'] + [d['spread']] + stops
     if kind == 'pattern':
         if o.get('k') == 'color':
             return ['color'] + o['rgb']
@@ -520,7 +579,7 @@ def def_numbers(kind, o):
         for p in o['primitives']:
             out += p['rect']
             kk = p['kind']
-            for key in ('sx', 'sy', 'dx', 'dy'):
+            for key in ('sx', 'sy', 'dx', 'dy', 'rx', 'ry', 'scale'):
                 if key in kk:
                     out.append(kk[key])
         return out
@@ -560,7 +619,8 @@ def gen_nested(rng):
     n = 1 + rng.below(3)
     users = [dict(kind='rect', id='u%d' % j, x=dy(rng, 5, 150, 2), y=dy(rng, 5, 120, 2), w=dy(rng, 20, 70, 2), h=dy(rng, 20, 60, 2))
              for j in range(n)]
-    return dict(kind='nested', outer=rng.choice(['pattern', 'mask']), users=users, cw=rng.choice([8, 12, 16]), ch=rng.choice([8, 10]))
+    return dict(kind='nested', outer=rng.choice(['pattern', 'mask', 'pattern-obb', 'pattern-obb']), users=users, cw=rng.choice([8, 12, 16]),
+                ch=rng.choice([8, 10]))
 
 
 def nested_docs(c):
@@ -568,6 +628,21 @@ def nested_docs(c):
     grad_a = '<linearGradient id="g">%s</linearGradient>' % STOPS
     grad_b = ('<linearGradient id="g" gradientUnits="userSpaceOnUse" x1="0" y1="0" x2="1" y2="0" gradientTransform="matrix(%d 0 0 %d 2 1)">%s</linearGradient>'
               % (cw, ch, STOPS))
+    if c['outer'] == 'pattern-obb':
+        # an objectBoundingBox pattern (cloned per user) whose content is painted with an objectBoundingBox gradient
+        content = '<rect x="2" y="1" width="%d" height="%d" fill="url(#g)"/>' % (cw, ch)
+        outer = '<pattern id="d" x="0" y="0" width="0.5" height="0.5">%s</pattern>' % content
+        body = ''.join(user_elem(u, 'fill="url(#d)"')[1] for u in c['users'])
+        defs_b = ''
+        body_b = ''
+        for i, u in enumerate(c['users']):
+            r = mapped([Fraction(0), Fraction(0), Fraction(1, 2), Fraction(1, 2)], exact_box(u))
+            defs_b += ('<pattern id="d%d" patternUnits="userSpaceOnUse" x="%s" y="%s" width="%s" height="%s">%s</pattern>'
+                       % ((i,) + tuple(fs(v) for v in r) + (content,)))
+            body_b += user_elem(u, 'fill="url(#d%d)"' % i)[1]
+        da = '<svg %s width="%d" height="%d"><defs>%s%s</defs>%s</svg>' % (NS, W, H, grad_a, outer, body)
+        db = '<svg %s width="%d" height="%d"><defs>%s%s</defs>%s</svg>' % (NS, W, H, grad_b, defs_b, body_b)
+        return da, db
     if c['outer'] == 'pattern':
         outer = ('<pattern id="d" patternUnits="userSpaceOnUse" width="%d" height="%d"><rect x="2" y="1" width="%d" height="%d" fill="url(#g)"/></pattern>'
                  % (cw + 6, ch + 4, cw, ch))
@@ -595,13 +670,10 @@ def distinct_boxes(boxes):
 
 def known_class(d, users, boxes):
     k = d['kind']
-    if k == 'clip' and d.get('link') == 'user-obb' and distinct_boxes(boxes):
-        return 'cached-obb-link'
-    if k == 'mask' and d.get('link') and d['units'] == 'user' and d['cu'] == 'user' and distinct_boxes(boxes):
-        return 'cached-obb-link'
+    # (a cacheable clipPath/mask linking an objectBoundingBox one, F18, is fixed by 18adf92: those cases must pass)
     if k == 'filter' and d['pu'] == 'obb' and d['prim'] == 'offset-sub':
         return 'primitive-subregion-obb'
-    if k == 'nested' and len(users) >= 2:
+    if k == 'nested' and len(users) >= 2 and d['outer'] in ('pattern', 'mask'):      # shared USER-SPACE definition only
         return 'shared-def-nested-obb'
     return None
 
@@ -613,7 +685,7 @@ def idnum(s):
     m = re.match(r"^(?:linearGradient|radialGradient|pattern|clipPath|mask|filter)(\d+)$", s)
     if m:
         return int(m.group(1))
-    return {'d': 1000, 'inner': 1001, 'base': 1002}.get(s, 2000 + (hash(s) % 1000))
+    return {'d': 1000, 'inner': 1001, 'base': 1002, 't1': 1003, 't2': 1004, 't3': 1005}.get(s, 2000 + (hash(s) % 1000))
 
 
 def fts(t):
@@ -827,7 +899,7 @@ def run(ctx):
         d, users, boxes = c['d'], c['users'], c['boxes']
         kind = d['kind']
         na = c['nodesA']
-        if kind in ('lg', 'rg'):
+        if kind in ('lg', 'rg') and d['gunits'] == 'obb':
             simple = all(u['kind'] in ('rect', 'path', 'inherit', 'line') for u in users)
             holders = []
             for u, B in zip(users, boxes):
@@ -841,7 +913,7 @@ def run(ctx):
                     obs = 'None' if not pa or pa.get('k') == 'color' else '(Some (%d%%N, %s))' % (idnum(pa['def']['id']), fts(pa['def']['ts']))
                     holders.append('(%s, %s)' % (frect(B), obs))
             if simple and holders:
-                g_items.append('(%s, 1000%%N, [1000%%N; 1002%%N], [%s])' % (fts(d['ts']), ';'.join(holders)))
+                g_items.append('(%s, 1000%%N, [1000%%N; 1002%%N; 1003%%N; 1004%%N; 1005%%N], [%s])' % (fts(d['ts']), ';'.join(holders)))
                 g_idx.append(ci)
         elif kind == 'pattern':
             for u, B in zip(users, boxes):
